@@ -10,6 +10,7 @@ import (
 	"path/filepath"
 	"strings"
 	"sync"
+	"sync/atomic"
 	"syscall"
 	"testing"
 	"time"
@@ -65,6 +66,19 @@ type Edit struct {
 type Case struct {
 	Mode   string    `json:"mode"`
 	Cycles [][]*Edit `json:"cycles"`
+	// RemoteBeta: the beta endpoint is reached through the agent protocol
+	// (client and server in this process, kernel socket pair).
+	RemoteBeta bool `json:"remote_beta,omitempty"`
+}
+
+// judgedAs maps the property a run is reported under to the rules applied:
+// C05 (the saved state records what the endpoints hold) is judged with the
+// C04 rules, always through a remote beta endpoint.
+func judgedAs(p string) string {
+	if p == "C05" {
+		return "C04"
+	}
+	return p
 }
 
 const ignoredSuffix = ".ign"
@@ -362,19 +376,24 @@ func drawEdits(rt *rapid.T, p string) []*Edit {
 }
 
 type runner struct {
-	env  *sess.Env
-	base string
-	n    int
+	remote atomic.Bool
+	env    *sess.Env
+	base   string
+	n      int
 
 	mu      sync.Mutex
 	session string
-	roots   map[bool]string    // alpha? -> root
-	mid     map[bool][]*Edit   // pending mid-cycle edits per side
+	roots   map[bool]string     // alpha? -> root
+	mid     map[bool][]*Edit    // pending mid-cycle edits per side
 	midObs  map[bool]*disk.Node // observation of the side right after its mid-cycle edits
 	clock   *int64
 }
 
 // hook runs right before an endpoint's Transition call.
+// remoteBeta tells the session kit whether the endpoint being connected is to
+// go through the agent protocol.
+func (r *runner) remoteBeta(session string, alpha bool) bool { return !alpha && r.remote.Load() }
+
 func (r *runner) hook(session string, alpha bool, transitions []*core.Change) (bool, []*core.Entry, []*core.Problem, bool, error) {
 	r.mu.Lock()
 	defer r.mu.Unlock()
@@ -398,6 +417,7 @@ func (r *runner) runCase(p string, c *Case) (violation string, nontrivial bool, 
 	defer os.RemoveAll(dir)
 	cfg := sess.ManualConfig(modeByName[c.Mode])
 	cfg.Ignores = []string{"*" + ignoredSuffix}
+	r.remote.Store(c.RemoteBeta)
 	id, err := r.env.Create(aRoot, bRoot, cfg, nil, nil, "", nil, false)
 	if err != nil {
 		return fmt.Sprintf("session creation fails: %v", err), false, 0
@@ -571,6 +591,7 @@ var rulesByProp = map[string]string{
 	"C02": "non-trivial: some cycle where the protected side holds content not in the archive and the roots differ",
 	"C03": "non-trivial: some cycle with an untracked/problematic object on disk while the roots differ",
 	"C04": "non-trivial: some cycle whose roots differed before the first flush",
+	"C05": "non-trivial: some cycle whose roots differed before the first flush (beta is always reached through the agent protocol; after two flushes without problems the saved state must hold every entry both roots agree on and a further flush must change nothing)",
 }
 
 func renderCase(c *Case) []string {
@@ -590,7 +611,7 @@ func TestSessionHistories(t *testing.T) {
 		t.Skip()
 	}
 	p := prop()
-	rec := ev.New(t, p, "session-histories", "rapid: 3-8 cycles of 0-4 edits per cycle (write/delete/mkdir/link/chmod"+map[bool]string{true: "/ignored file/FIFO/non-UTF-8 name", false: ""}[p == "C03"]+") on two real roots (names {a,b,c,d}, depth<=2) of a real Manager session (no-watch, waiting flush per cycle); both roots and the saved archive are observed independently before and after each flush; "+rulesByProp[p])
+	rec := ev.New(t, p, "session-histories", "rapid: 3-8 cycles of 0-4 edits per cycle (write/delete/mkdir/link/chmod"+map[bool]string{true: "/ignored file/FIFO/non-UTF-8 name", false: ""}[p == "C03"]+") on two real roots (names {a,b,c,d}, depth<=2) of a real Manager session (no-watch, waiting flush per cycle; in a third of the cases beta is reached through the agent protocol: remote client and server over a socket pair); both roots and the saved archive are observed independently before and after each flush; "+rulesByProp[p])
 	base := t.TempDir()
 	env, err := sess.NewEnv(filepath.Join(base, "data"))
 	if err != nil {
@@ -598,19 +619,24 @@ func TestSessionHistories(t *testing.T) {
 	}
 	defer env.Close()
 	r := &runner{env: env, base: base}
-	sess.Install(nil, &sess.Hooks{Transition: r.hook})
+	sess.Install(nil, &sess.Hooks{Transition: r.hook, Remote: r.remoteBeta})
 	defer sess.Install(nil, nil)
+	jp := judgedAs(p)
 	ev.Check(t, rec, 150, 6000, func(rt *rapid.T) {
-		c := &Case{Mode: rapid.SampledFrom(modesFor(p)).Draw(rt, "mode")}
+		c := &Case{Mode: rapid.SampledFrom(modesFor(jp)).Draw(rt, "mode")}
+		c.RemoteBeta = p == "C05" || rapid.IntRange(0, 2).Draw(rt, "remote-beta") == 0
 		for n := rapid.IntRange(3, 8).Draw(rt, "cycles"); n > 0; n-- {
-			c.Cycles = append(c.Cycles, drawEdits(rt, p))
+			c.Cycles = append(c.Cycles, drawEdits(rt, jp))
 		}
-		v, nt, cycles := r.runCase(p, c)
+		v, nt, cycles := r.runCase(jp, c)
 		rec.EvalN(uint64(max(cycles, 1)))
 		if v != "" {
 			ev.Failf(rt, rec, c, "%s", v)
 		}
 		rec.Class("mode/" + c.Mode)
+		if c.RemoteBeta {
+			rec.Class("beta-through-the-agent-protocol")
+		}
 		if nt {
 			rec.Class("nontrivial")
 			rec.NonTrivial(ev.Hash(renderCase(c)...))
@@ -642,9 +668,9 @@ func TestReplay(t *testing.T) {
 	}
 	defer env.Close()
 	r := &runner{env: env, base: base}
-	sess.Install(nil, &sess.Hooks{Transition: r.hook})
+	sess.Install(nil, &sess.Hooks{Transition: r.hook, Remote: r.remoteBeta})
 	defer sess.Install(nil, nil)
-	if v, _, _ := r.runCase(p, &c); v != "" {
+	if v, _, _ := r.runCase(judgedAs(p), &c); v != "" {
 		ev.FailTB(t, rec, &c, "%s", v)
 	}
 }
